@@ -90,10 +90,44 @@ func splitFields(fl *ast.FieldList) []*ast.Field {
 
 func tupleStrings(t *types.Tuple) (ts, ns []string) {
 	for i := 0; i < t.Len(); i++ {
-		ts = append(ts, typeStr(t.At(i).Type()))
+		ts = append(ts, typeStr(expandNewNamed(t.At(i).Type(), 0)))
 		ns = append(ns, t.At(i).Name())
 	}
 	return
+}
+
+// recordedTypeNames: rel -> the type names of the recorded tree (filled by detectRenames).
+var recordedTypeNames = map[string]map[string]bool{}
+
+// expandNewNamed: a small unexported named type introduced for a repeated literal type (`type expandingSet
+// map[uintptr]struct{}`) is read as the type it stands for when signatures are compared with the recorded ones.
+func expandNewNamed(t types.Type, depth int) types.Type {
+	if depth > 4 {
+		return t
+	}
+	switch x := t.(type) {
+	case *types.Named:
+		o := x.Obj()
+		if o.Pkg() == nil || o.Exported() || x.TypeArgs().Len() > 0 || x.NumMethods() > 0 {
+			return t
+		}
+		rel := relOfPkg(o.Pkg())
+		rec, known := recordedTypeNames[rel]
+		if !known || rec[tname(o)] {
+			return t
+		}
+		if _, isStruct := x.Underlying().(*types.Struct); isStruct {
+			return t
+		}
+		return expandNewNamed(x.Underlying(), depth+1)
+	case *types.Pointer:
+		return types.NewPointer(expandNewNamed(x.Elem(), depth+1))
+	case *types.Slice:
+		return types.NewSlice(expandNewNamed(x.Elem(), depth+1))
+	case *types.Map:
+		return types.NewMap(expandNewNamed(x.Key(), depth+1), expandNewNamed(x.Elem(), depth+1))
+	}
+	return t
 }
 
 // normalizeSignatures returns the rewritten files (nil when nothing is to be normalised).
